@@ -368,6 +368,19 @@ theorem send_refusal_propagates (bo : ByteOrder) :
    fun off e vs h => by simp only [enc, h],
    fun off fs vs h => by simp only [enc, h]; split <;> rfl⟩
 
+/-- 7d. The contexts the correspondence run wraps a byte array of `n` bytes in: as the second field of a struct
+    `(yay)` and as the payload of a variant it is emitted iff `n ≤ 64 MiB` (the context changes nothing); as the
+    value of the only entry `"k"` of a dict `a{say}` the DICT's own element region is `12 + n` bytes and the whole
+    is emitted iff `12 + n ≤ 64 MiB`. (The driver answers `c18.arr` with exactly these right-hand sides.) -/
+theorem send_contexts (bo : ByteOrder) (off : Nat) (ns : List Nat) (hn : ∀ n ∈ ns, n < 256) :
+    (∀ x, x < 256 →
+      (enc bo off (.struct [.base .byte, .array (.base .byte)]) (.struct [.num x, .arr (ns.map Val.num)])).isSome =
+        arrOk 1 ns.length) ∧
+    (enc bo off .variant (.variant (.array (.base .byte)) (.arr (ns.map Val.num)))).isSome = arrOk 1 ns.length ∧
+    (enc bo off (.dict .string (.array (.base .byte)))
+      (.arr [.struct [.str [107], .arr (ns.map Val.num)]])).isSome = decide (12 + ns.length ≤ maxArrayLen) :=
+  ⟨fun x hx => struct_ctx bo off x hx ns hn, variant_ctx bo off ns hn, dict1_ctx bo off ns hn⟩
+
 /-- 8a. `marshal::marshal` (valid type, names and body signature given) refuses **iff** the header field array
     exceeds 64 MiB or header + padding + body exceeds 128 MiB; otherwise the header has exactly the length the
     length-level model `marshalLen` computes (this is what the correspondence run uses for 64 MiB inputs). -/
@@ -559,6 +572,7 @@ end Rustbus.Limits
 #print axioms Rustbus.Limits.send_array_limit
 #print axioms Rustbus.Limits.send_fixed_array_limit
 #print axioms Rustbus.Limits.send_refusal_propagates
+#print axioms Rustbus.Limits.send_contexts
 #print axioms Rustbus.Limits.send_message_limit
 #print axioms Rustbus.Limits.refused_send_writes_nothing
 #print axioms Rustbus.Limits.send_receive_limits_agree
